@@ -348,6 +348,35 @@ func c18Config(ctx *Ctx, dir string) {
 			return c
 		},
 	}
+	// the command entry is not the last one of its list / sits between two others
+	cmdSensor := configuration.SensorConfig{ID: "cs", Cmd: &configuration.CmdSensorConfig{Exec: exe}}
+	cmdFan := configuration.FanConfig{ID: "cf", Curve: "c", Cmd: &configuration.CmdFanConfig{SetPwm: &configuration.ExecConfig{Exec: exe}, GetPwm: &configuration.ExecConfig{Exec: exe}}}
+	fileSensor := func(id string) configuration.SensorConfig {
+		return configuration.SensorConfig{ID: id, File: &configuration.FileSensorConfig{Path: "/dev/null"}}
+	}
+	fileFan := func(id string) configuration.FanConfig {
+		return configuration.FanConfig{ID: id, Curve: "c", File: &configuration.FileFanConfig{Path: "/dev/null"}}
+	}
+	variants["cmd-sensor-listed-first"] = func() configuration.Configuration {
+		c := base()
+		c.Sensors = []configuration.SensorConfig{cmdSensor, fileSensor("s")}
+		return c
+	}
+	variants["cmd-sensor-in-the-middle"] = func() configuration.Configuration {
+		c := base()
+		c.Sensors = []configuration.SensorConfig{fileSensor("s"), cmdSensor, fileSensor("s2")}
+		return c
+	}
+	variants["cmd-fan-listed-first"] = func() configuration.Configuration {
+		c := base()
+		c.Fans = []configuration.FanConfig{cmdFan, fileFan("f")}
+		return c
+	}
+	variants["cmd-fan-in-the-middle"] = func() configuration.Configuration {
+		c := base()
+		c.Fans = []configuration.FanConfig{fileFan("f"), cmdFan, fileFan("f2")}
+		return c
+	}
 	for name, mk := range variants {
 		for _, uid := range []int{0, 1000} {
 			for _, gid := range []int{0, 1000} {
